@@ -65,11 +65,17 @@ def escape_query(q):
 
 
 def parse_get(line):
-    """get <mode> {ops} F <q> {B szx}* -> (mode, ops, q|None, [szx])"""
+    """get <mode> {ops} {F <q>}* {B szx}* -> (mode, ops, q|None (options joined by '&'), [szx])"""
     t = line.split()
     mode = int(t[1])
-    _, _, ops, q, _ = parse_case("wk " + " ".join(t[2:]))
-    szx = [int(t[i + 1]) for i in range(len(t) - 1) if t[i] == "B"]
+    fi = t.index("F") if "F" in t else len(t)
+    _, _, ops, _, _ = parse_case("wk " + " ".join(t[2:fi]) + " F ~")
+    qs = [b"" if t[i + 1] == "-" else bytes.fromhex(t[i + 1])
+          for i in range(fi, len(t) - 1) if t[i] == "F" and t[i + 1] != "~"]
+    q = b"&".join(qs) if qs else None
+    if q == b"":
+        q = None
+    szx = [int(t[i + 1]) for i in range(fi, len(t) - 1) if t[i] == "B"]
     return mode, ops, q, szx
 
 
@@ -94,11 +100,13 @@ def get_oracle(line, c_out):
         if g != want:
             how = "GET without Block2" if k == 0 else "block-wise GET with szx %d" % szxs[k - 1]
             return "%s delivers %d bytes %r.., the listing has %d bytes %r.." % (how, len(g), g[:40], len(want), want[:40])
-    if mode & 1:
-        bl = blocks_of(c_out)
-        exp = [max(1, -(-len(want) // 1024))] + [max(1, -(-len(want) // (16 << z))) for z in szxs]
-        if bl != exp:
-            return "number of blocks %s, expected %s" % (bl, exp)
+    bl = blocks_of(c_out)
+    exp = [max(1, -(-len(want) // 1024))] + [max(1, -(-len(want) // (16 << z))) for z in szxs]
+    if not (mode & 1):
+        # block mode 0: a GET without Block2 is answered in one PDU whenever the listing fits
+        bl, exp = bl[1:], exp[1:]
+    if bl != exp:
+        return "number of blocks %s, expected %s" % (bl, exp)
     return None
 
 
@@ -298,7 +306,7 @@ def gen_cases(run, r):
             if q == b"":
                 q = None      # coap_pdu_parse rejects an empty Uri-Query option (C03's limit table)
             L = len(gen_link.py_listing(ops, q))
-            mode = 1 if (k % 2 == 0 or L > 900) else 0
+            mode = 1 if k % 2 == 0 else 0
             if k and q is not None and r.random() < 0.5:
                 # a filter that survives coap_get_query unchanged (F20c is exercised by the others)
                 q = bytes(c for c in q if c in UNESC) or None
@@ -307,6 +315,8 @@ def gen_cases(run, r):
             # (the built-in handler is not called): not part of the GET cases
             gops = [o for o in ops if o[1] != gen_link.WK]
             t = ["get", str(mode)] + gen_link.ops_tokens(gops) + ["F", "~" if q is None else gen_link.tok(q)]
+            if q is not None and r.random() < 0.12:
+                t += ["F", gen_link.tok(r.choice([b"if=x", b"a", b"rt=temp*", b"&", b"x=%41"]))]
             for z in szx:
                 t += ["B", str(z)]
             lines.append(" ".join(t))
